@@ -311,7 +311,7 @@ pub fn run(ctx: &Ctx) -> i32 {
         salt: 0x0801_0000,
         nshards: 64,
         enumerated: &enumerated,
-        random_cases: tier.pick(6_000_000, 80_000_000),
+        random_cases: tier.pick(6_000_000, 320_000_000),
         build_random: &|e| build(e, None, None),
         classify: &|c, j, t: &Tag, s| classify(c, j, t, s),
         all_quirks: false,
